@@ -1,6 +1,7 @@
 package rules
 
 import (
+	"strings"
 	"golang.org/x/tools/go/ssa"
 
 	"verif/checker/ir"
@@ -41,6 +42,21 @@ func init() {
 					println("CLOSE", fname(fn), c.Pos(call.Pos()), call.Common().Args[0].String())
 				}
 			})
+		}
+	}
+}
+
+func init() {
+	Registry["DBG-client"] = func(c *Ctx) {
+		for t := range c.clientTypes() {
+			println("CLIENT-TYPE", t.Obj().Name())
+		}
+		for _, fn := range c.P.LibFns {
+			f := c.P.File(fn.Pos())
+			a, b := strings.Contains(f, "client") || f == "transport_stdio.go" || f == "transport_http.go", clientSide(c, fn)
+			if a != b {
+				println("DIFF file=", a, "type=", b, fname(fn), c.Pos(fn.Pos()))
+			}
 		}
 	}
 }
